@@ -99,12 +99,12 @@ Qed.
 Lemma eval_lfold s l : eval (lfold s l) = fold_builtin combine (name_id s) (map eval l).
 Proof.
   induction l as [|x l IH] using rev_ind; [reflexivity|].
-  now rewrite lfold_snoc, map_app, fold_builtin_snoc; cbn [eval map]; rewrite IH.
+  rewrite lfold_snoc, map_app. cbn [map]. rewrite fold_builtin_snoc. cbn [eval]. now rewrite IH.
 Qed.
 Lemma eval_rfold s l : eval (rfold s l) = fold_derive combine (name_id s) (map eval l).
 Proof.
   induction l as [|x l IH] using rev_ind; [reflexivity|].
-  now rewrite rfold_snoc, map_app, fold_derive_snoc; cbn [eval map]; rewrite IH.
+  rewrite rfold_snoc, map_app. cbn [map]. rewrite fold_derive_snoc. cbn [eval]. now rewrite IH.
 Qed.
 
 Lemma eval_sym : forall t, eval (sym_id t) = id_of t.
@@ -207,13 +207,13 @@ Lemma leaf_der_apart s s' l : (exists l0 x, l = l0 ++ [x]) -> sym_id (TLeaf s) <
 Proof. intros (l0 & a & ->) E. rewrite sym_der, map_app in E. cbn [map sym_id] in E. rewrite rfold_snoc in E. discriminate E. Qed.
 
 Lemma map_sym_inj sg l : Forall (wf sg) l ->
-  Forall (fun x => wf sg x -> forall t', wf sg t' -> sym_id x = sym_id t' -> x = t') l ->
+  Forall (fun x => forall t', wf sg x -> wf sg t' -> sym_id x = sym_id t' -> x = t') l ->
   forall l', Forall (wf sg) l' -> map sym_id l = map sym_id l' -> l = l'.
 Proof.
   induction l as [|x r IHl]; intros Hw IH [|y r'] Hw' E; try discriminate E; [reflexivity|].
   cbn [map] in E. injection E as E1 E2.
   inversion Hw as [|? ? Hx Hr]; inversion IH as [|? ? IHx IHr]; inversion Hw' as [|? ? Hy Hr']; subst.
-  f_equal; [exact (IHx Hx y Hy E1) | exact (IHl Hr IHr r' Hr' E2)].
+  f_equal; [exact (IHx y Hx Hy E1) | exact (IHl Hr IHr r' Hr' E2)].
 Qed.
 
 (** MAIN: equal id expressions of well-formed terms come from equal terms. *)
@@ -274,7 +274,7 @@ Definition twin_b : tterm := TDer LOC [TLeaf "alloc::string::String"; TApp "std:
     (* Loc<String, (u8,)> *)
 
 Lemma twins_alias : twin_a <> twin_b /\ sym_id twin_a = sym_id twin_b /\ id_of twin_a = id_of twin_b.
-Proof. split; [discriminate|]. split; reflexivity. Qed.
+Proof. split; [discriminate|]. split; [reflexivity | apply deterministic; reflexivity]. Qed.
 
 Theorem unrestricted_refuted : exists t t', t <> t' /\ sym_id t = sym_id t' /\ id_of t = id_of t'.
 Proof. exists twin_a, twin_b. exact twins_alias. Qed.
